@@ -81,16 +81,20 @@ check("C12",
       "DESIGN.md §4 C12")
 
 check("C06",
-      "The independent reader is a strict Lean parser written from docs/archive_format.rst (SevenZ.Spec: every count, "
-      "size, vector length, END marker, reserved bit; assignment of sub-streams to files), validated against 55 "
-      "third-party fixtures. Theorem level: the implementation's assignment cursor agrees with the format's assignment "
-      "on interleaved / zero-stream-folder layouts (kernel-evaluated); the header reader model is tied to archiveinfo.py "
-      "by the hdr stream incl. non-writer headers and mutations. Decided mostly by exploration: logical archives x 24 "
-      "layout features from an independent reference writer, validated by the Lean strict reader, then read by py7zr and "
-      "compared member by member; plus all decodable fixtures. Partial: the general refinement theorem reader-vs-spec "
-      "is not yet proved for all layouts.",
-      "Lean 4 strict reference parser + kernel-checked assignment examples + differential correspondence + layout exploration with an independent writer",
-      "DESIGN.md §4 C06")
+      "Theorem (Lean, every layout): whenever the format's assignment of sub-streams to files succeeds (any number of "
+      "files, any interleaving of empty-stream entries, any number of folders incl. folders without streams, any sizes "
+      "and digests), py7zr's cursor gives every member the same folder, offset, size and digest (assign_refines_spec, "
+      "by a simulation relation between the two cursors; spec_assign_uses_all: the format hands out every sub-stream "
+      "once). The cursor model is tied to _real_get_contents by the asg stream (real archives: model vs py7zr vs the "
+      "strict reader's assignment), the header reader model to archiveinfo.py by the hdr streams incl. non-writer "
+      "headers and mutations. The independent reader is a strict Lean parser written from docs/archive_format.rst "
+      "(every count, size, vector length, END marker, reserved bit), validated against the third-party fixtures. "
+      "Exploration: logical archives x 24 layout features from an independent reference writer, validated by the "
+      "strict reader, then read by py7zr (listing, metadata, extraction to a factory AND to a directory) and compared "
+      "member by member; plus all decodable fixtures. Partial: header *parsing* (Impl reader = strict reader on valid "
+      "input) is tied by correspondence and exploration, not proved.",
+      "Lean 4 refinement proof (cursor simulates the format's assignment) + strict reference parser + differential correspondence + layout exploration with an independent writer",
+      "DESIGN.md §9.3 C06")
 check("C07",
       "Theorems (Lean): the Size field of the time and attribute properties equals the bytes that follow for every "
       "definedness pattern; bit vectors have ceil(n/8) bytes; NUMBERs <= 9 bytes decodable by the spec decoder (C17). "
